@@ -47,6 +47,9 @@ func init() {
 			{Name: "projects-open-together", N: constN(300, 6000), Gen: func(r *xrand.Rand, idx int, tier string) *fw.Case {
 				return &fw.Case{Docs: []run.Doc{{}}}
 			}, Eval: c08EvalOpenTogether},
+			{Name: "unclosed-before-include", N: func(string) int { return 24 }, Gen: func(r *xrand.Rand, idx int, tier string) *fw.Case {
+				return &fw.Case{Ints: map[string]int{"v": idx}, Docs: []run.Doc{{}}}
+			}, Eval: c08EvalUnclosed},
 			{Name: "shared-file", N: constN(1200, 40000), Gen: func(r *xrand.Rand, idx int, tier string) *fw.Case {
 				return &fw.Case{Docs: []run.Doc{{}}}
 			}, Eval: c08EvalShared},
@@ -268,6 +271,46 @@ func c08EvalOpenTogether(t *fw.T, c *fw.Case) {
 		t.Violation("working-directory-changed", fmt.Sprintf("processing a project changed the working directory of the process from %s to %s", wd0, wd1))
 	}
 	t.Distinct(fmt.Sprintf("open together n%d", n))
+}
+
+// c08EvalUnclosed: a parenthesis that is never closed, with the last children of its directive moved into an included
+// file so that the file which opened it ends with the INCLUDE (or with blanks and comments after it), one, two or three
+// files deep: rejected like the text in one piece.
+func c08EvalUnclosed(t *fw.T, c *fw.Case) {
+	v := c.Ints["v"]
+	opener := []string{"URL /a\n(\n  GET\n", "GET /a\n(\n", "URL /a\n  GET\n  (\n", "POST /a\n  Request\n  (\n    Headers\n      {\"h\": \"v\"}\n"}[v%4]
+	moved := []string{"    200 any\n", "  200 any\n", "    200 any\n", "    Body any\n"}[v%4]
+	after := []string{"", "\n", "# nothing more\n", "   \n\n"}[(v/4)%4]
+	if v/16 == 1 && v%4 == 3 {
+		after = "  200 any\n" // a directive after the INCLUDE, inside the same open parenthesis
+	}
+	depth := 1 + (v/8)%3
+	whole := run.Single([]byte("JSIGHT 0.3\n" + opener + moved + after))
+	files := map[string][]byte{}
+	// root -> (depth-1 pass-through files) -> the file with the opener -> the moved children
+	name := func(i int) string { return fmt.Sprintf("f%d.jst", i) }
+	files["root.jst"] = []byte("JSIGHT 0.3\n")
+	cur := "root.jst"
+	for i := 1; i < depth; i++ {
+		files[cur] = append(files[cur], []byte("INCLUDE "+name(i)+"\n")...)
+		cur = name(i)
+		files[cur] = nil
+	}
+	files[cur] = append(files[cur], []byte(opener+"INCLUDE moved.jst\n"+after)...)
+	files["moved.jst"] = []byte(moved)
+	cut := run.Doc{Files: files, Root: "root.jst"}
+	c.Docs = []run.Doc{cut, whole}
+	ow, oc := t.Exec(whole), t.Exec(cut)
+	t.Count("unclosed_before_include_checked")
+	if ow.Outcome != run.Rejected {
+		t.Violation("unclosed-accepted-in-one-piece", fmt.Sprintf("a parenthesis that is never closed: %s\n%s", describe(ow), whole.Files[whole.Root]))
+		return
+	}
+	if oc.Outcome != ow.Outcome {
+		t.Violation("verdict-differs:"+oc.Outcome+"-vs-"+ow.Outcome+":unclosed-before-include", fmt.Sprintf("a parenthesis that is never closed, the last children moved into an included file: %s; in one piece: %s\n--- file with the parenthesis\n%s", describe(oc), describe(ow), files[cur]))
+		return
+	}
+	t.Distinct(fmt.Sprintf("unclosed depth%d", depth))
 }
 
 // ---- names ----
